@@ -61,6 +61,16 @@ def gen_planar(rng, n, tier):
         out.append({'x1': [pt() for _ in range(n1)], 'x2': [pt() for _ in range(n2)], 'p': rng.choice([1, 2, INF]), 'dim': rng.choice([2, 2, 1, 3]), 'rematch': rng.choice([None, None, None, 'dtw', 'frechet']), 'ptype': rng.choice([None, None, 'float', 'np.int64', 'np.float64', 'np.int32']), 'later': rng.random() < 0.3, 'plot': rng.random() < 0.2})
         if rng.random() < 0.2:
             out[-1]['geo'] = True; out[-1]['dim'] = 2
+    for _ in range(max(6, n // 40)):
+        # a short track with an outlier against the same route recorded with a stop of 55..80 fixes (creeping by millimetres), the fast variant called with its default
+        # arguments (verbose left on): the best coupling pays the outlier once, early; lingering on the first column is cheap for many rows and dearer in the end.  Oracle only.
+        m = rng.randint(55, 80)
+        far = rng.choice([-70.0, 60.0, -45.0]); e = rng.choice([0.001, 0.002, 0.0005])
+        x1 = [[0.0, 0.0, 0.0], [far, 0.0, 0.0], [1.0, 0.0, 0.0], [1.0, 5.0, 0.0]][:rng.choice([3, 4, 4])]
+        x2 = [[0.0, 0.0, 0.0]] + [[1.0, e * k, 0.0] for k in range(m)] + ([[1.0, 5.0, 0.0]] if rng.random() < 0.7 else [])
+        if rng.random() < 0.25:
+            x1, x2 = x2, x1
+        out.append({'x1': x1, 'x2': x2, 'p': rng.choice([1, 2, INF]), 'dim': 2, 'rematch': None, 'ptype': None, 'later': False, 'plot': False, 'vdefault': True})
     return out
 
 
@@ -103,7 +113,7 @@ def run_impl(case):
         t4 = mk([[v[0] + 1.5] + list(v[1:]) for v in case['x2'][::-1]] + case['x1'][:2], geo)
         cmp.match(t1, t4, mode=cmp.MODE_MATCHING_DTW, p=1, dim=dim, verbose=False)
         cmp.match(t1, t4, mode=cmp.MODE_MATCHING_FRECHET, dim=dim, verbose=False)
-    f = cmp.match(t1, t2, mode=cmp.MODE_MATCHING_FDTW, p=p, dim=dim, verbose=False, plot=bool(case.get('plot')))      # the display flag must not change what is returned
+    f = cmp.match(t1, t2, mode=cmp.MODE_MATCHING_FDTW, p=p, dim=dim, plot=bool(case.get('plot')), **({} if case.get('vdefault') else {'verbose': False}))      # the display flag must not change what is returned
     if case.get('plot'):
         import matplotlib.pyplot as plt
         plt.close('all')
@@ -125,6 +135,8 @@ def coq_case_tol(tol):
     def f(case, obs):
         if 'exc' in obs or any(v != v or abs(v) == float('inf') for v in (obs['score'], obs['fscore'], obs['sscore'])):
             return None                               # an undefined score is not a value of the model: left to the oracle
+        if len(case['x1']) > 20 or len(case['x2']) > 20:
+            return None                               # long tracks: the oracle's own dynamic programme decides (the model's table in exact rationals takes 10 s per case)
         n1, n2 = len(case['x1']), len(case['x2'])
         k = {1: 1, 2: 2, INF: 0}[case['p']]
         rows = coq_list(coq_list(q(v) for v in r) for r in obs['D'])
